@@ -471,6 +471,12 @@ func (runtime *Runtime) deliverDeduplicatedEvents(ch chan dedup, empty chan<- de
 		runtime.controllersMu.RLock()
 
 		for _, ctrl := range controllers {
+			if _, registered := runtime.controllers[ctrl]; !registered {
+				// the dependency was seen while the controller's registration was in progress, and the
+				// registration got rejected and rolled back since
+				continue
+			}
+
 			runtime.controllers[ctrl].WatchTrigger(&k)
 		}
 
